@@ -268,7 +268,7 @@ impl<S: PageSize> Add<u64> for Page<S> {
     type Output = Self;
     #[inline]
     fn add(self, rhs: u64) -> Self::Output {
-        Page::containing_address(self.start_address() + rhs * S::SIZE)
+        Page::containing_address(self.start_address() + rhs.checked_mul(S::SIZE).unwrap())
     }
 }
 
@@ -283,7 +283,7 @@ impl<S: PageSize> Sub<u64> for Page<S> {
     type Output = Self;
     #[inline]
     fn sub(self, rhs: u64) -> Self::Output {
-        Page::containing_address(self.start_address() - rhs * S::SIZE)
+        Page::containing_address(self.start_address() - rhs.checked_mul(S::SIZE).unwrap())
     }
 }
 
